@@ -455,6 +455,14 @@ class World(object):
         for h in self.step_hooks:
             h(self, act)
 
+    def step(self, policy=None):
+        """Take exactly one scheduler step (False if nothing is enabled)."""
+        acts = self.enabled()
+        if not acts:
+            return False
+        self.do((policy or canonical)(self, acts))
+        return True
+
     def run(self, policy=None, max_steps=20000, until=None):
         """Run until quiescent (nothing enabled except housekeeping).  Returns the number of steps taken."""
         policy = policy or canonical
